@@ -42,7 +42,8 @@ type Step struct {
 	Proof string `json:"proof"`
 	Peer  string `json:"peer"`
 	Role  string `json:"role"`
-	NewC  bool   `json:"newc"` // the model created connection C for this Tell/Ask
+	NewC  bool   `json:"newc"`  // the model created connection C for this Tell/Ask
+	Async bool   `json:"async"` // issue the call and go on with the script; "join" collects it
 }
 
 type ExpRec struct {
@@ -54,6 +55,8 @@ type ExpRec struct {
 	At   string `json:"at"`
 	Src  string `json:"src"`
 	Seen bool   `json:"seen"`
+	Lk   bool   `json:"lk"`  // a LookupPublicKey call
+	Res  string `json:"res"` // the key the model expects it to return
 }
 
 type Behaviour struct {
@@ -108,6 +111,12 @@ type world interface {
 	Send(n, x, t string, ask bool, payload []byte, timeout time.Duration) error
 	// Reply performs Tell/Ask of honest node n to an address it saw as Src of a delivered message.
 	Reply(n string, addr any, ask bool, payload []byte, timeout time.Duration) error
+	// Lookup performs LookupPublicKey of honest node n for (identity of x, transport address of t), outside a
+	// handler, and names the key ("err" if none came back).
+	Lookup(n, x, t string, timeout time.Duration) string
+	// MHello / MFinish are the two halves of a P2PKE handshake attempt of M as initiator.
+	MHello(c int, k, proof string) string
+	MFinish(c int) string
 	MListen(k, proof string)
 	// BindAnswer ties the model's connection c to the connection peer most recently opened to M.
 	BindAnswer(c int, peer string)
@@ -128,6 +137,7 @@ type run struct {
 	got  map[int]int // payload id -> times handed to an honest callback
 	seen map[int]int // payload id -> times obtained by M
 	srcs map[string]savedSrc
+	wg   sync.WaitGroup // calls issued asynchronously
 }
 
 // savedSrc is the Src address an honest node saw on a delivered message (destination of a later reply).
@@ -221,9 +231,11 @@ func (r *run) expOf(p int) ExpRec {
 }
 
 var (
-	settle   = 120 * time.Millisecond
-	longWait = 4 * time.Second
-	failWait = 350 * time.Millisecond
+	asyncWait = 1500 * time.Millisecond // context of a call that is issued while a handshake is held back
+	asyncLead = 150 * time.Millisecond  // time given to such a call to get going before the script goes on
+	settle    = 120 * time.Millisecond
+	longWait  = 4 * time.Second
+	failWait  = 350 * time.Millisecond
 )
 
 func errText(err error) string {
@@ -288,6 +300,17 @@ func execute(b *Behaviour) []Event {
 				timeout = failWait
 			}
 			pl := payloadFor(b.ID, st.P, st.N)
+			if st.A == "tell" && st.Async {
+				r.emit(Event{Ev: "send", A: "tell", P: st.P, From: st.N, X: st.X, T: st.T, Ask: st.Ask, Used: st.N, Exp: e})
+				r.wg.Add(1)
+				go func(st Step) {
+					defer r.wg.Done()
+					err := w.Send(st.N, st.X, st.T, st.Ask, pl, asyncWait)
+					r.emit(Event{Ev: "ret", A: "tell", P: st.P, From: st.N, Res: errText(err)})
+				}(st)
+				time.Sleep(asyncLead)
+				continue
+			}
 			if st.A == "tell" {
 				r.emit(Event{Ev: "send", A: "tell", P: st.P, From: st.N, X: st.X, T: st.T, Ask: st.Ask, Used: st.N, Exp: e})
 				err := w.Send(st.N, st.X, st.T, st.Ask, pl, timeout)
@@ -312,6 +335,32 @@ func execute(b *Behaviour) []Event {
 				}
 			}
 			r.afterSend(st.P, e)
+		case "lookup":
+			e := r.expOf(st.P)
+			do := func(st Step, d time.Duration) {
+				res := w.Lookup(st.N, st.X, st.T, d)
+				r.emit(Event{Ev: "lookup", A: "lookup", P: st.P, From: st.N, X: st.X, T: st.T, Lk: res, Exp: e})
+			}
+			if st.Async {
+				r.wg.Add(1)
+				go func(st Step) { defer r.wg.Done(); do(st, asyncWait) }(st)
+				time.Sleep(asyncLead)
+			} else {
+				d := longWait
+				if b.Kind == "p2pke" && !(e.Sure && e.St == "got") {
+					d = failWait
+				}
+				do(st, d)
+			}
+		case "join":
+			r.wg.Wait()
+			time.Sleep(settle)
+		case "hello":
+			res := w.MHello(st.C, st.K, st.Proof)
+			r.emit(Event{Ev: "step", A: "hello", X: st.K, Res: st.Proof + ": " + res})
+		case "finish":
+			res := w.MFinish(st.C)
+			r.emit(Event{Ev: "step", A: "finish", Res: res})
 		case "mlisten":
 			w.MListen(st.K, st.Proof)
 			r.emit(Event{Ev: "step", A: "mlisten", X: st.K, Res: st.Proof})
@@ -345,6 +394,7 @@ func execute(b *Behaviour) []Event {
 			r.emit(Event{Ev: "step", A: st.A, Res: "unknown step"})
 		}
 	}
+	r.wg.Wait()
 	time.Sleep(settle)
 	r.emit(Event{Ev: "end"})
 	r.mu.Lock()
